@@ -28,6 +28,10 @@ def make_case(rng, tg, fault):
                 x[3] = rng.choice(["", " tail ", "t"])
             if pth and rng.random() < 0.15:
                 x[6] = [["k", "v"]]
+            if len(pth) == 1 and rng.random() < 0.3:
+                x[5] = [kv for kv in x[5] if kv[0] != "id"] + [["id", f"c{i}-{pth[0]}"]]
+        if rng.random() < 0.1:
+            t[8] = []                      # a referenced element that has no children: the reference simply disappears
         srcs.append(t); items.append(t)
     for j in range(rng.randint(0, 4)):
         el = rng.choice(["creator", "contact", "metadataProvider", "associatedParty"])
